@@ -9,10 +9,18 @@ answers-unchanged-but-replicas-differ) — witnesses `forward_not_stable_witness
 What is proved (`replicas_agree_on_success_partial`): along ANY history of uploads and deletes on healthy replicas in
 which every upload is forwarded stably, all replicas stay IDENTICAL (hence agree on every key) and every operation
 succeeds (or answers not-found on all of them).
+`stableForward_iff_syntactic` characterises the hypothesis without gzip and without the Store: `StableForward c s q` holds,
+for EVERY codec, exactly when the decidable `stableSyntactic s q` does = the forwarding upload does not re-compress the
+bytes (already compressed, or a type `IsCompressableFileType` does not compress and no compressible 128-byte sample of an
+untyped blob > 16 KiB) and the replica derives the mime type the primary stored (a stored, client-supplied type — class
+`stable_of_typed_upload` —, or nothing stored and a sniffed/extension type the replica drops again).
+`replicas_agree_on_success_syntactic_partial` is the main theorem under that codec-free hypothesis; identical rewrites
+(isFileUnchanged) need no exclusion there: identical replicas decide it identically.
 -/
 import SwV.Model.C40
 import SwV.Spec.C40
 import SwV.Gen.C40
+import SwV.Lemmas.C40
 namespace SwV.Props.C40
 open SwV.Model.C33 (Codec) 
 open SwV.Model.C40 SwV.Spec.C40
@@ -189,6 +197,42 @@ theorem replicas_agree_on_success_partial (c : Codec) (ops : List Op) :
         · right; rw [h, d]
       · exact i1 st h
 
+/-! ## the hypothesis, syntactically -/
+
+/-- `StableForward` does not depend on gzip: it is the decidable, codec-free `stableSyntactic` (no re-compression on the
+    forwarding path ∧ the replica derives the stored mime type) -/
+theorem stableForward_iff_syntactic (c : Codec) (s : Sniff) (q : Req) :
+    StableForward c s q ↔ SwV.Lemmas.C40.stableSyntactic s q = true :=
+  ⟨SwV.Lemmas.C40.syntactic_of_stable c s q, SwV.Lemmas.C40.stable_of_syntactic c s q⟩
+
+/-- a readable class: the primary stored a media type (client-supplied, not octet-stream, not the extension's), and the
+    bytes are not re-compressed (sent compressed, or a type `IsCompressableFileType` is not sure to compress) -/
+theorem stable_of_typed_upload (c : Codec) (s : Sniff) (q : Req) (hm : (createNeedle q).mime ≠ []) (hext : s.extMime = q.extMime)
+    (hz : q.gz = true ∨
+      (SwV.Model.C33.isCompressable (if (createNeedle q).name = [] then ['.'] else (createNeedle q).name) (createNeedle q).mime).1 = false ∨
+      (SwV.Model.C33.isCompressable (if (createNeedle q).name = [] then ['.'] else (createNeedle q).name) (createNeedle q).mime).2 = false) :
+    StableForward c s q :=
+  (stableForward_iff_syntactic c s q).mpr (SwV.Lemmas.C40.syntactic_of_typed s q hm hext hz)
+
+def stableOpB : Op → Bool
+  | .up s _ q => SwV.Lemmas.C40.stableSyntactic s q
+  | .del _ => true
+
+/-- MAIN (partial, codec-free hypothesis): along any history of uploads and deletes on healthy replicas whose uploads
+    are syntactically stable, every operation succeeds (or finds nothing to delete) and the replicas stay identical —
+    whatever gzip does. Excluded: exactly the uploads of the two open findings (re-sniffed mime / re-compressed bytes on
+    the forwarding path, and what follows from the replicas holding other bytes) and replica failures. -/
+theorem replicas_agree_on_success_syntactic_partial (c : Codec) (ops : List Op) (w : World) (p : Node)
+    (hne : w.nodes ≠ []) (heq : AllEq w.nodes p) (hh : Healthy w.faults) (hst : ∀ o ∈ ops, stableOpB o = true) :
+    (∀ st ∈ (runOps c w ops).2, success st = true ∨ st = .notfound) ∧
+    (∃ p', AllEq (runOps c w ops).1.nodes p') ∧
+    (∀ k, Agree c (runOps c w ops).1.nodes k) :=
+  replicas_agree_on_success_partial c ops w p hne heq hh (fun o ho => by
+    have := hst o ho
+    cases o with
+    | up s k q => exact (stableForward_iff_syntactic c s q).mpr this
+    | del k => trivial)
+
 /-! ## the hypotheses are satisfiable; the full statement is false -/
 
 def symCodec : Codec :=
@@ -207,6 +251,24 @@ example : StableForward symCodec sniffText reqVideo := by unfold StableForward; 
 /-- text bytes without a content type: the replicas get `text/plain; charset=utf-8` and gzip bytes -/
 theorem forward_not_stable_witness : ¬ StableForward symCodec sniffText reqPlain := by
   unfold StableForward; decide
+
+/-- the same two facts, syntactically (no codec) -/
+example : SwV.Lemmas.C40.stableSyntactic sniffText reqVideo = true ∧ SwV.Lemmas.C40.stableSyntactic sniffText reqPlain = false := by decide
+
+/-- "sniffs to itself": a.png without a content type, sniffed as image/png = the extension's type — nothing stored on the
+    primary, the replica drops the forwarded type again, images are not compressed: stable.  a.txt with text bytes sniffs to
+    itself as well but is re-compressed on the way: not stable (finding replicas-differ-in-mime covers the gzip side). -/
+theorem self_sniffing_witnesses :
+    SwV.Lemmas.C40.stableSyntactic ⟨"image/png".toList, "image/png".toList, false⟩
+      ⟨"a.png".toList, [], .given 7, [], "-", false, false, [137, 80], "image/png".toList⟩ = true ∧
+    SwV.Lemmas.C40.stableSyntactic ⟨"text/plain; charset=utf-8".toList, "text/plain; charset=utf-8".toList, false⟩
+      ⟨"a.txt".toList, [], .given 7, [], "-", false, false, [104, 105], "text/plain; charset=utf-8".toList⟩ = false := by decide
+
+/-- the hypotheses of the syntactic main theorem are satisfiable: typed upload, delete, upload of the same bytes again -/
+example : ∀ o ∈ [Op.up sniffText 1 reqVideo, Op.del 1, Op.up sniffText 1 reqVideo, Op.up sniffText 1 { reqVideo with name := "g".toList }],
+    stableOpB o = true := by decide
+
+example : (createNeedle reqVideo).mime ≠ [] ∧ sniffText.extMime = reqVideo.extMime := by decide
 
 def twoEmpty : World := ⟨[[], []], [0, 0]⟩
 
